@@ -4,6 +4,7 @@ package rules
 
 import (
 	"go/token"
+	"go/types"
 	"strings"
 
 	"golang.org/x/tools/go/ssa"
@@ -55,6 +56,10 @@ func init() {
 	extendProp("C03", "(R3.13) calculateRolloutHash rebuilds the steps it hashes from a list that has not just been emptied (both strategies): a plan edit of the current step must change the hash, or the step's routing is never re-applied.", r7C03)
 	extendProp("C01", "(R1.13) who may write DeploymentStrategy.Paused: the workload webhook sets it, Initialize of the partition-style Deployment controller clears it, nothing reachable from UpgradeBatch touches it; (R1.14) the admission check that step replicas never decrease compares values scaled by GetScaledValueFromIntOrPercent (a percentage has no integer value).", r7C01)
 	extendProp("C10", "(R10.13) both Deployment finders compare the workload's template with the stable ReplicaSet's (the rollback test) on every path that returns a Workload marked InRolloutProgressing without an error.", r7C10)
+	extendProp("C13", "(R13.10) EnsureRoutes and Finalise of the Gateway provider never return a nil error on a path where retry.RetryOnConflict (the HTTPRoute write) returned one — whatever kind of error it is.", r7C13)
+	importProp("C04", "C13", map[string]string{"R13.10": "R4.11"}, "(R4.11 = C13 R13.10) a route whose restore failed is not reported as restored, so the canary Service is not deleted under it.")
+	extendProp("C11", "(R11.14) UpgradeBatch and EnsureBatchPodsReadyAndLabeled of the canary-style control plane compute the batch context only behind IsStable() of the canary Deployment (observedGeneration >= generation): SyncWorkloadInformation checks the stable Deployment only.", r7C11)
+	extendProp("C20", "(R20.9) every load through an optional scalar pointer (*int32 weight, *string traffic, …) in the conversion functions is dominated by a nil test of that pointer.", r7C20)
 	extendProp("C08", "(R8.10) both admission handlers answer 'this workload is not selected by the webhook configuration' only after every entry and rule was examined (or the entry's selector cannot be parsed): the first entry whose rule matches does not decide alone.", r6C08)
 }
 
@@ -1821,5 +1826,121 @@ func r7C10(c *Ctx) {
 			}
 		}
 		c.Ob("R10.13", shortName(name)+"#rollback-tested", fn.Pos(), bad == "", "every in-progress Workload returned without error has passed the rollback test", bad)
+	}
+}
+
+// ---------------------------------------------------------------- C13 R13.10 (round 7)
+
+func r7C13(c *Ctx) {
+	p := c.Prog
+	c.Rule("R13.10", "a failed write of the HTTPRoute is an error of the Gateway provider", 2)
+	for _, name := range []string{"pkg/trafficrouting/network/gateway.gatewayController.EnsureRoutes", "pkg/trafficrouting/network/gateway.gatewayController.Finalise"} {
+		fn := p.Func(name)
+		if fn == nil {
+			c.Unresolved("R13.10", name)
+			continue
+		}
+		failed := FNotNil(MCall("retry.RetryOnConflict"))
+		n := len(CallsIn(fn, "retry.RetryOnConflict"))
+		for _, g := range samePkgClosure(p, fn) {
+			if g != fn {
+				n += len(CallsIn(g, "retry.RetryOnConflict"))
+			}
+		}
+		bad := ""
+		for _, ret := range returnsOf(fn) {
+			if ret.Block() == fn.Recover || len(ret.Results) != 2 {
+				continue
+			}
+			for _, lf := range Leaves(Forwarded(ret.Results[1]), ret.Block()) {
+				k, isC := lf.V.(*ssa.Const)
+				if !isC || !k.IsNil() {
+					continue
+				}
+				fs := append(append([]Fact{}, lf.Facts...), FactsFor(fn).At(ret.Block())...)
+				if HasFact(fs, failed) {
+					bad = "the return at " + p.Pos(ret.Pos()) + " hands back a nil error on a path where the update of the HTTPRoute has failed"
+				}
+			}
+		}
+		c.Ob("R13.10", shortName(name)+"#failed-write-is-an-error", fn.Pos(), n > 0 && bad == "", "no nil error after RetryOnConflict failed",
+			ifs(bad != "", bad+": for Finalise `false, nil` means 'nothing left to restore' — the manager goes on to delete the canary Service while the route still carries the canary backends")+ifs(n == 0, "RetryOnConflict call not found"))
+	}
+}
+
+// ---------------------------------------------------------------- C11 R11.14 (round 7)
+
+func r7C11(c *Ctx) {
+	p := c.Prog
+	c.Rule("R11.14", "the canary-style control plane judges a batch only on a canary Deployment whose status is current", 2)
+	stable := FTrue(MCall("WorkloadInfo.IsStable"))
+	for _, name := range []string{"pkg/controller/batchrelease/control/canarystyle.realCanaryController.UpgradeBatch", "pkg/controller/batchrelease/control/canarystyle.realCanaryController.EnsureBatchPodsReadyAndLabeled"} {
+		fn := p.Func(name)
+		if fn == nil {
+			c.Unresolved("R11.14", name)
+			continue
+		}
+		calls := CallsIn(fn, "realCanaryController.CalculateBatchContext")
+		if len(calls) == 0 {
+			for _, ci := range AllCalls(fn) {
+				if strings.HasSuffix(CalleeName(ci.Common()), ".CalculateBatchContext") {
+					calls = append(calls, ci)
+				}
+			}
+		}
+		if len(calls) == 0 {
+			c.Ob("R11.14", shortName(name)+"#context-on-current-status", fn.Pos(), false, "CalculateBatchContext call", "anchor not found")
+			continue
+		}
+		for _, ci := range calls {
+			reach, _ := CanReach(Entry(fn), func(in ssa.Instruction) bool { return in == ci.(ssa.Instruction) }, ReachOpts{CutEdge: func(b *ssa.BasicBlock, k int) bool { return EdgeFactMatches(b, k, stable) }})
+			c.Ob("R11.14", shortName(name)+"#context-on-current-status", ci.Pos(), !reach, "the batch context is computed only behind GetCanaryInfo().IsStable()",
+				ifs(reach, "the batch context (pod counts read from the canary Deployment's status) is computed without the status having been checked to belong to the current generation: after an outside change of the canary's spec the stale status over-states, and the batch is reported Ready (or stays Ready) on pods that no longer exist"))
+		}
+	}
+}
+
+// ---------------------------------------------------------------- C20 R20.9 (round 7)
+
+func r7C20(c *Ctx) {
+	p := c.Prog
+	c.Rule("R20.9", "the converters load an optional scalar (weight, traffic, …) only behind its nil test", 2)
+	n := 0
+	for _, fn := range p.RepoFuncs() {
+		name := FuncName(fn)
+		if !strings.HasPrefix(name, "api/v1alpha1.") || !(strings.Contains(name, "Convert") || strings.Contains(name, "Conversion")) {
+			continue
+		}
+		for _, b := range fn.Blocks {
+			for _, in := range b.Instrs {
+				u, ok := in.(*ssa.UnOp)
+				if !ok || u.Op != token.MUL {
+					continue
+				}
+				// *x where x is a pointer to a scalar read out of a struct field
+				pt, ok := u.X.Type().Underlying().(*types.Pointer)
+				if !ok {
+					continue
+				}
+				if _, isBasic := pt.Elem().Underlying().(*types.Basic); !isBasic {
+					continue
+				}
+				ld, ok := u.X.(*ssa.UnOp)
+				if !ok || ld.Op != token.MUL {
+					continue
+				}
+				if _, isField := ld.X.(*ssa.FieldAddr); !isField {
+					continue
+				}
+				n++
+				pt0 := TermOf(u.X).String()
+				guarded := HasFact(FactsAtInstr(in), FNotNil(func(t *Term) bool { return t.String() == pt0 }))
+				c.Ob("R20.9", name+"#load("+pt0+")", u.Pos(), guarded, "optional scalar loaded behind a nil test",
+					ifs(!guarded, "*"+pt0+" is loaded without "+pt0+" != nil: the schema leaves the field optional (a step with neither weight nor replicas, a strategy without traffic), so such an object makes the conversion panic — it can then not be read through this API version at all"))
+			}
+		}
+	}
+	if n == 0 {
+		c.Unresolved("R20.9", "loads of optional scalars in the converters")
 	}
 }
